@@ -18,8 +18,8 @@ plus a generic scan of *every* aux-data table (module and IR level) of the live
 objects for the deleted Symbol objects / their UUIDs, and a protobuf round trip.
 Nothing of gtirb_rewriting is called to compute an expectation.
 """
+import collections.abc
 import io
-import itertools
 import uuid
 
 import gtirb
@@ -55,7 +55,11 @@ ASSUMPTIONS = [
     "gtirb (containers, protobuf codec) and gtirb_test_helpers are trusted; the 'before' snapshot is read back from the "
     "built IR through gtirb, the expectation is computed on that snapshot",
     "only the tables named in the statement are populated with symbol references; every table (module and IR level) is "
-    "scanned afterwards",
+    "scanned afterwards; comments / sectionProperties / alignment / functionEntries / functionBlocks carry bystander "
+    "entries that must not change; ten always-empty tables of gtirb_test_helpers are removed before the run (codec time)",
+    "tables that apply() itself adds (leafFunctions) are ignored unless they mention a deleted symbol",
+    "not covered: the quantifier's 'any subset' for two deleted symbols is enumerated over grouped places (5 / 7 "
+    "groups), not over all 2^22 combinations; libraries that are already empty before the deletion are not generated",
     "leniency: symbolicExpressionSizes entries at the offset of a removed expression may stay or go (statement silent)",
     "leniency: request sequence force=False then force=True (mode 'FT', thorough only): statement silent, both "
     "'forced' and 'not forced' accepted; True-then-False means not forced (docstring and task text)",
@@ -80,19 +84,29 @@ GROUPS = {
 
 BOUNDS = {
     "quick": {
-        "one": "ELF 2^11 / PE 2^10 place subsets of S1 x K in {nowhere, everywhere} x {private, shared} x req {F,T,TF}",
-        "pair": "5 place groups per symbol: 2^5 x 2^5 x K in {nowhere, everywhere} x {private, shared} x "
-        "req pairs {F,T}^2 + (TF,T) + (T,TF); ELF and PE",
-        "ver": "version mode {-,d,n,b}^3 x id sharing {own, shared, same-lib} x base {none, flags 1, flags 3} x "
-        "orphan {0,1} x deleted {S1},{S1,S2}",
-        "count": "0..3 symbols deleted, all places, {private, shared}, req modes {F,T,TF}^k, ELF and PE",
+        "places": "ELF: elfSymbolInfo, elfSymbolTabIdxInfo, elfSymbolVersions, functionNames, symbolForwarding key, "
+        "symbolForwarding value, cfi personality, cfi lsda, cfi other operand, expression in code, expression in data "
+        "(11); PE: peImportedSymbols, peExportedSymbols instead of the three elf tables (10)",
+        "one": "S1 deleted: all 2^11 (ELF) / 2^10 (PE) place subsets of S1 x K everywhere x {private, shared} x "
+        "req {F,T,TF}; plus 'one-alone': all subsets x K nowhere x private x req T",
+        "pair": "S1,S2 deleted: 5 place groups per symbol (aux tables | forwarding | cfi | code expr | data expr), all "
+        "2^5 x 2^5 x K everywhere x {private, shared} x req pairs ELF {F,T}^2 + (TF,T), PE (T,T),(F,T),(T,TF); plus "
+        "'pair5-alone': 2^5 x 2^5 x K nowhere x (T,T)",
+        "ver": "version mode {-,defined,needed,uses-base-id}^3 x id sharing {own ids and libraries, shared id, same "
+        "library different ids} x base definition {none, flags 1, flags 3} x orphan def/need {0,1} x deleted "
+        "{S1},{S1,S2}, forced",
+        "count": "0..3 of the three symbols deleted, all places (with / without expressions), {private, shared}, req "
+        "modes {F,T,TF}^k, ELF and PE",
     },
     "thorough": {
-        "one": "as quick, K in {nowhere, same as S1, everywhere}, req {F,T,TF,FT,FF,TT}, referent kinds {0,1}",
-        "pair": "7 place groups per symbol: 2^7 x 2^7 x K in {nowhere, everywhere} x {private, shared} x req {F,T,TF}^2"
-        " (+ FT pairs on the 5-group product); ELF and PE",
-        "ver": "version mode {-,d,n,b,g}^3 x sharing x base x orphan x deleted {S1},{S1,S2},{S1,S2,K} x extra places "
-        "{none, esi+xd}",
+        "one": "all place subsets of S1 x K in {nowhere, same places as S1, everywhere} x {private, shared} x req "
+        "{F,T,TF,FT,FF,TT} x referent kinds {S1 code/S2 proxy/K code, S1 proxy/S2 data/K proxy}",
+        "pair": "7 place groups per symbol (elf or pe tables | functionNames | fwd key | fwd value | cfi | code expr | "
+        "data expr): 2^7 x 2^7 x (ELF: K nowhere+private, K everywhere x {private, shared}; PE: K everywhere x "
+        "{private, shared}) x req ELF {F,T,TF}^2, PE {F,T,TF}x{F,T}; plus the 5-group product x K {nowhere, same, "
+        "everywhere} x {private, shared} x all req pairs containing FT",
+        "ver": "version mode {-,d,n,b,id-0-without-definition}^3 x sharing x base x orphan x deleted "
+        "{S1},{S1,S2},{S1,S2,K} x extra places {none, elfSymbolInfo + data expression}",
         "count": "as quick with req modes {F,T,TF,FT}^k and both request orders",
     },
 }
@@ -125,6 +139,12 @@ CFI_DIRECTIVE = {
 }
 
 
+DROPPED_EMPTY_TABLES = (
+    "binaryType", "encodings", "libraries", "libraryPaths", "padding", "SCCs", "dynamicEntries",
+    "peExportEntries", "peImportEntries", "peResources",
+)
+
+
 def D(kind, **kw):
     d = {"kind": kind}
     d.update(kw)
@@ -145,6 +165,8 @@ def build(case):
     ff = gtirb.Module.FileFormat.ELF if fmt == "ELF" else gtirb.Module.FileFormat.PE
     ir, m = create_test_module(ff, gtirb.Module.ISA.X64)
     names = {}
+    for t in DROPPED_EMPTY_TABLES:  # always-empty helper tables: only cost (protobuf codec time), no content
+        m.aux_data.pop(t, None)
 
     tsec, tbi0 = add_text_section(m, address=0x1000)
     dsec, dbi0 = add_data_section(m, address=0x2000)
@@ -161,6 +183,15 @@ def build(case):
         cb[s] = add_code_block(tbi, code)
         db[s] = add_data_block(dbi_, bytes([0x10 + i]) * 8)
         cbi[s], dbi[s] = tbi, dbi_
+
+    # bystander entries in tables that never mention a symbol
+    m.aux_data["comments"].data[gtirb.Offset(cb["S1"], 0)] = "comment on S1's block"
+    m.aux_data["comments"].data[gtirb.Offset(db["K"], 0)] = "comment on K's data"
+    m.aux_data["sectionProperties"].data[tsec] = (1, 6)
+    m.aux_data["sectionProperties"].data[dsec] = (1, 3)
+    if fmt == "ELF":
+        m.aux_data["alignment"].data[cb["S1"]] = 16
+        m.aux_data["alignment"].data[db["S2"]] = 8
 
     sym = {}
     for s in SYMS:
@@ -342,11 +373,11 @@ class Canon:
             return self.node(v)
         if isinstance(v, uuid.UUID):
             return "NULL" if v.int == 0 else ("uuid", self.names.get(v, "?"))
-        if isinstance(v, dict):
+        if isinstance(v, collections.abc.Mapping):  # dict or gtirb_rewriting's OffsetMapping
             return {self.val(k): self.val(x) for k, x in v.items()}
         if isinstance(v, (list, tuple)):
             return tuple(self.val(x) for x in v)
-        if isinstance(v, (set, frozenset)):
+        if isinstance(v, (set, frozenset, collections.abc.Set)):
             return ("set",) + tuple(sorted((self.val(x) for x in v), key=repr))
         return v
 
@@ -409,7 +440,7 @@ def owner(cv):
     if mentions(cv, ("K",)):
         return "K"
     if mentions(cv, ("S1", "S2")):
-        return "other-requested-or-kept-S"
+        return "S1-or-S2"
     return "bystander"
 
 
@@ -612,9 +643,8 @@ def compare(exp, obs, before, dnames, diffs, tag=""):
                 sub.append(D("sequence-reordered-or-duplicated", r_table=t, got=short(odata), expected=short(edata)))
         else:
             sub.append(D("aux-table-changed", r_table=t, got=short(odata), expected=short(edata)))
-    for t in obs["aux"]:
-        if t not in exp["aux"]:
-            sub.append(D("aux-table-appeared", r_table=t))
+    # tables that apply() itself creates (leafFunctions) are not this property's business; a stale
+    # mention inside any table, old or new, is reported by live_scan
     for d in sub:
         d["kind"] = tag + d["kind"]
     diffs.extend(sub)
@@ -647,11 +677,11 @@ def live_scan(w, deleted, diffs):
     def walk(v, path):
         if isinstance(v, gtirb.Offset):
             yield from walk(v.element_id, path + "/offset")
-        elif isinstance(v, dict):
+        elif isinstance(v, collections.abc.Mapping):
             for k, x in v.items():
                 yield from walk(k, path + "/key")
                 yield from walk(x, path + "/value")
-        elif isinstance(v, (list, tuple, set, frozenset)):
+        elif isinstance(v, (list, tuple, set, frozenset, collections.abc.Set)):
             for x in v:
                 yield from walk(x, path)
         else:
@@ -692,6 +722,44 @@ def uses_of(before, name):
     return [k for k, e in before["exprs"].items() if name in expr_syms(e)]
 
 
+def check_built(case, before):
+    """Harness self-check: every requested place really holds the symbol in the module that was built
+    (so that a case cannot be vacuous because of a builder slip)."""
+    aux = {t: d for t, (_, d) in before["aux"].items()}
+    cfi_name = {p: v[0] for p, v in CFI_DIRECTIVE.items()}
+    for s in SYMS:
+        y = ("sym", s)
+        for p in case["pl"].get(s, ()):
+            if p == "esi":
+                ok = y in aux["elfSymbolInfo"]
+            elif p == "tab":
+                ok = y in aux["elfSymbolTabIdxInfo"]
+            elif p == "fn":
+                ok = y in aux["functionNames"].values()
+            elif p == "fwk":
+                ok = y in aux["symbolForwarding"]
+            elif p == "fwv":
+                ok = y in aux["symbolForwarding"].values()
+            elif p in cfi_name:
+                ok = any(d[0] == cfi_name[p] and d[2] == y for lst in aux["cfiDirectives"].values() for d in lst)
+            elif p in ("xc", "xd"):
+                sec = ".text" if p == "xc" else ".data"
+                ok = any(k[0] == sec and s in expr_syms(e) for k, e in before["exprs"].items())
+            elif p == "imp":
+                ok = y in aux["peImportedSymbols"]
+            elif p == "exp":
+                ok = y in aux["peExportedSymbols"]
+            else:
+                ok = False
+            if not ok:
+                raise RuntimeError("builder did not realise place %s of %s in %r" % (p, s, case))
+        mode = (case.get("ver") or {}).get("modes", {}).get(s, "-")
+        if mode != "-" and y not in aux["elfSymbolVersions"][2]:
+            raise RuntimeError("builder did not realise version mode of %s in %r" % (s, case))
+    if before["symbols"].keys() < set(SYMS):
+        raise RuntimeError("symbols missing")
+
+
 def run_case(case):
     """Returns (diffs, outcome, nontrivial)."""
     w = build(case)
@@ -699,6 +767,7 @@ def run_case(case):
     req = case["req"]
     order = case.get("order") or [s for s in SYMS if s in req]
     before = snapshot(ir, m, w.names)
+    check_built(case, before)
     deleted = {n: w.sym[n] for n in order}
     dnames = tuple(sorted(deleted))
 
@@ -740,9 +809,10 @@ def run_case(case):
         st = []
         left = [n for n in dnames if n in after["symbols"]]
         st.append("syms=" + ("all-kept" if len(left) == len(dnames) else ("none-kept" if not left else "some-kept")))
-        if after["aux"] == before["aux"]:
-            st.append("aux=untouched")
-        elif after["aux"] == exp["aux"]:
+        aft = {t: after["aux"].get(t) for t in before["aux"]}  # tables apply() adds itself are ignored
+        if aft == before["aux"]:
+            st.append("aux=untouched(no-mention)" if exp["aux"] == before["aux"] else "aux=untouched")
+        elif aft == exp["aux"]:
             st.append("aux=fully-scrubbed")
         else:
             st.append("aux=partly-scrubbed")
@@ -813,29 +883,27 @@ def _with_ver(case):
     return case
 
 
+KFULL = [("full", 0), ("full", 1)]
+KALONE = [("none", 0)]
+KSHARE_T = [(k, sh) for k in ("none", "same", "full") for sh in (0, 1)]
+
+
 def fam_one(tier):
     th = tier == "thorough"
     out = []
     for fmt in ("ELF", "PE"):
-        n = len(PLACES[fmt])
-        out.append(
-            (
-                "one/" + fmt,
-                [
-                    list(range(2 ** n)),
-                    ["none", "same", "full"] if th else ["none", "full"],
-                    [0, 1],
-                    ["F", "T", "TF", "FT", "FF", "TT"] if th else ["F", "T", "TF"],
-                    [0, 1] if th else [0],
-                ],
-            )
-        )
+        masks = list(range(2 ** len(PLACES[fmt])))
+        if th:
+            out.append(("one/" + fmt, [masks, KSHARE_T, ["F", "T", "TF", "FT", "FF", "TT"], [0, 1]]))
+        else:
+            out.append(("one/" + fmt, [masks, KFULL, ["F", "T", "TF"], [0]]))
+            out.append(("one-alone/" + fmt, [masks, KALONE, ["T"], [0]]))
     return out
 
 
 def make_one(name, ch):
     fmt = name.split("/")[1]
-    mask, kprof, share, r, ref = ch
+    mask, (kprof, share), r, ref = ch
     P = PLACES[fmt]
     s1 = _subset(P, mask)
     k = {"none": [], "same": list(s1), "full": list(P)}[kprof]
@@ -846,21 +914,32 @@ def fam_pair(tier):
     th = tier == "thorough"
     out = []
     for fmt in ("ELF", "PE"):
-        g = 7 if th else 5
-        reqs = [(a, b) for a in ("F", "T") for b in ("F", "T")] + [("TF", "T"), ("T", "TF")]
         if th:
             reqs = [(a, b) for a in ("F", "T", "TF") for b in ("F", "T", "TF")]
-        out.append(("pair%d/%s" % (g, fmt), [list(range(2 ** g)), list(range(2 ** g)), ["none", "full"], [0, 1], reqs]))
-        if th:
+            ks = KALONE + KFULL
+            if fmt == "PE":
+                ks, reqs = KFULL, [(a, b) for a in ("F", "T", "TF") for b in ("F", "T")]
+            m7 = list(range(128))
+            out.append(("pair7/" + fmt, [m7, m7, ks, reqs]))
             reqs2 = [(a, b) for a in ("F", "T", "FT") for b in ("F", "T", "FT") if "FT" in (a, b)]
-            out.append(("pair5/%s" % fmt, [list(range(32)), list(range(32)), ["none", "same", "full"], [0, 1], reqs2]))
+            out.append(("pair5/" + fmt, [list(range(32)), list(range(32)), KSHARE_T, reqs2]))
+        else:
+            m5 = list(range(32))
+            if fmt == "ELF":
+                reqs = [(a, b) for a in ("F", "T") for b in ("F", "T")] + [("TF", "T")]
+                alone = [("T", "T")]
+            else:
+                reqs = [("T", "T"), ("F", "T"), ("T", "TF")]
+                alone = [("T", "T")]
+            out.append(("pair5/" + fmt, [m5, m5, KFULL, reqs]))
+            out.append(("pair5-alone/" + fmt, [m5, m5, KALONE, alone]))
     return out
 
 
 def make_pair(name, ch):
     fmt = name.split("/")[1]
     g = int(name[4])
-    m1, m2, kprof, share, (r1, r2) = ch
+    m1, m2, (kprof, share), (r1, r2) = ch
     G = GROUPS[(fmt, g)]
 
     def places(mask):
@@ -921,7 +1000,7 @@ def make_count(name, ch):
 
 
 FAMILIES = {"one": (fam_one, make_one), "pair": (fam_pair, make_pair), "ver": (fam_ver, make_ver), "count": (fam_count, make_count)}
-CHUNK = {"quick": 2500, "thorough": 12000}
+CHUNK = {"quick": 1024, "thorough": 8192}
 
 
 def _spaces(tier):
